@@ -141,6 +141,18 @@ def main(argv):
         print('TOOL-ERROR: property %s selects no obligation (vacuous check)' % prop_id); return 2
     fails = failing(prop_id, cfg, res, obligations)
     known = load_known()
+    # an `as-recorded-in-known-findings` clause states a recorded deviation exactly, so that a DIFFERENT wrong value is still reported.  It binds
+    # only while the deviation is there: once every listed finding of that instruction is discharged (the defect was repaired), the description is
+    # void -- it is dropped from the obligations and a failure of it is not a violation.
+    AR = 'as-recorded-in-known-findings'
+    failed_now = set((f['unit'], f['oid']) for f in res['fails'])
+    def ar_void(unit, oid):
+        if AR not in oid: return False
+        stem = oid.rsplit('|', 1)[0] + '|'
+        listed = [k for k in known.get('findings', []) if k['unit'] == unit and k['obligation'].startswith(stem)]
+        return not any((k['unit'], k['obligation']) in failed_now for k in listed)
+    obligations = [(u, oid, k) for u, oid, k in obligations if not ar_void(u, oid)]
+    fails = [f for f in fails if not ar_void(f['unit'], f.get('oid') or '')]
     kf = []; viol = []
     for f in fails:
         k = is_known(known, prop_id, f)
@@ -350,7 +362,7 @@ GLOBAL_ASSUMPTIONS = [
     'assumed contracts of slice::sort (i32: ascending permutation), the two sort_by call forms (R13), f32::clamp, String == str',
     'machine integers are NOT treated as mathematical: every + - * / % and narrowing is checked for overflow by Verus',
     'the extracted text is checked by Verus\'s rustc 1.98.1 front end; the repository builds with its own stable toolchain (same source text)',
-    'rewrites R1 (call through the instruction table -> wrapper, A-dispatch), R2 (rand imports -> stub module with assumed contracts), R3 (for+continue desugaring), R4 (compound assignment expansion), R5 (reference patterns), R6 (reference comparison), R7 (`as f32` / `f32 as usize` / `as i32` of a float / f32 constants -> wrapper functions whose bodies are the original expressions; results uninterpreted), R8 (a new pure straight-line helper is verified inlined at its call sites), R9 (iterator adapters enumerate / rev().enumerate() / fold / filter+count / position / for_each / retain / keys().cloned().collect() / HashMap iter_mut replaced by the loops they stand for: ASSUMES std\'s documented semantics of those adapters; tools/selftest_rewrites.sh runs the repository\'s tests on the rewritten text, the bounded Kani harnesses run the original adapters), R15 (the parser\'s str operations -> wrappers with uninterpreted results; ASSUMES an ASCII prefix of n bytes puts a char boundary at offset n), R14 (f32 `iter().sum()` -> left-to-right loop from std\'s empty sum: ASSUMED order, cross-checked by the bounded Kani harness b_c09_float_vector_sum), R13 (the two `sort_by` call forms -> wrappers with ASSUMED contracts), R12 (`println!` statements dropped), R11 (`x.to_string()` of an indexed element / reference parameter -> wrapper whose result is an uninterpreted function of the value: ASSUMES the Display impls are pure), DETRAIT are applied mechanically; counts under coverage.extraction; see DESIGN.md I.2',
+    'rewrites R1 (call through the instruction table -> wrapper, A-dispatch), R2 (rand imports -> stub module with assumed contracts), R3 (for+continue desugaring), R4 (compound assignment expansion), R5 (reference patterns), R6 (reference comparison), R7 (`as f32` / `f32 as usize` / `as i32` of a float / f32 constants -> wrapper functions whose bodies are the original expressions; results uninterpreted), R8 (a new pure straight-line helper is verified inlined at its call sites), R9 (iterator adapters enumerate / rev().enumerate() / fold / filter+count / position / for_each / retain / keys().cloned().collect() / HashMap iter_mut replaced by the loops they stand for: ASSUMES std\'s documented semantics of those adapters; tools/selftest_rewrites.sh runs the repository\'s tests on the rewritten text, the bounded Kani harnesses run the original adapters), R15 (the parser\'s str operations -> wrappers; ASSUMED contracts from std\'s documentation: starts_with is the prefix relation and an ASCII prefix of n bytes makes byte offset n character offset n, strip_suffix removes the suffix, split / parse / split_whitespace are uninterpreted pure functions of the characters), R16 (the body of the token loop of parse_program is verified as a function of its own: moved verbatim, `continue` -> `return`, captured counter by `&mut`), R17 (`Vec::with_capacity(n)` -> wrapper requiring that n elements fit: ASSUMED for n <= 2^31-1 and for n up to the length of an existing vector), R14 (f32 `iter().sum()` -> left-to-right loop from std\'s empty sum: ASSUMED order, cross-checked by the bounded Kani harness b_c09_float_vector_sum), R13 (the two `sort_by` call forms -> wrappers with ASSUMED contracts), R12 (`println!` statements dropped), R11 (`x.to_string()` of an indexed element / reference parameter -> wrapper whose result is an uninterpreted function of the value: ASSUMES the Display impls are pure), DETRAIT are applied mechanically; counts under coverage.extraction; see DESIGN.md I.2',
 ]
 
 
